@@ -35,6 +35,16 @@ CHECKS = {
    "Enumerates 9 fetch outcomes (cacheable, uncacheable, 5xx, upstream protocol error, undecodable body = no response object, hang beyond ProxyTimeout, panic at the proxy hook, truncated upstream body = net/http abort panic, fetcher's client dropping its connection) x 4 waiter positions (parked; one waiter registered but not yet receiving while the completion runs; the same with a purge of the key; arriving after completion), then random outcome sequences across epochs on one key. Verdict: all requests returned, entry status != fetching and no registered waiters at quiescence, each waiter either got the fetched response or made its own upstream contact, follow-up served normally.",
    "liveness restated as bounded progress at quiescence (20 s watchdog only triggers the state inspection); termination without ProxyTimeout against a never-answering upstream is not demanded",
    "DESIGN.md 6/C02"),
+ "C18": ("inproc", "exploration",
+   "reference-model replay + store inspection + ordering check on event sequence numbers + porcupine linearizability per (cache,key)",
+   "Three caches (without and with a scripted store) behind three servers sharing the Host, purges through the real admin DELETE /cache: sequential purge variants (named, unnamed, absent cache, absent key, repeated) with the persisted record inspected and the next request on every cache and on a neighbour key judged by the entry model; purge issued while the fetch is held at the origin with parked waiters (must return before the release; nobody stranded); concurrent histories of requests, purges and clock advances checked per (cache,key) with porcupine.",
+   "which way a purge concurrent with a fetch is ordered is not judged (linearizability leaves it open); in-memory scripted store stands for the persistent one",
+   "DESIGN.md 6/C18"),
+ "C03": ("inproc", "exploration",
+   "differential monitor: independent token-level shareability predicate vs observed reuse; origin log vs client log for exactly-once and label truthfulness",
+   "Generated upstream header sets (lifetime, blocking, harmless and extension directives in any order, casing, separators, 1-3 lines, quoted arguments, duplicates; Set-Cookie incl. an empty first line; valid and invalid Age; values 0..20 digits; Expires/Last-Modified; 12 status codes; 7 methods), each on a fresh URL, first as one request or a burst of 3 and then repeated: a reuse of the first response is a violation unless the predicate says shareable; every hit has no upstream contact, every other successful answer exactly one, non-GET/HEAD are forwarded exactly once each.",
+   "only stored => shareable is judged (the converse is counted); duplicate directives with different values, unparsable numbers and invalid Age are left unjudged",
+   "DESIGN.md 6/C03"),
 }
 ALL = ["C%02d" % i for i in range(1, 21)]
 NOT_BUILT_REASON = "no check is registered for this property yet (framework under construction; see DESIGN.md Appendix B build order)"
